@@ -440,6 +440,18 @@ int __wrap_listen(int fd, int backlog)
 int __wrap_close(int fd)
 {
     struct shim_fd *f = get(fd);
+    if (nb_watch && in_lib) {
+	/* close(2) ignores O_NONBLOCK when SO_LINGER is on with a non-zero time: it sleeps until the queued data is
+	   acknowledged or the time is up.  Such a close inside a call on a non-blocking socket is a wait (C05); it is
+	   counted, and the sleep itself is avoided like the other flagged waits are capped */
+	struct linger lg = { 0, 0 };
+	socklen_t ll = sizeof(lg);
+	if (__real_getsockopt(fd, SOL_SOCKET, SO_LINGER, &lg, &ll) == 0 && lg.l_onoff && lg.l_linger > 0) {
+	    wait_seen++;
+	    lg.l_onoff = 0;
+	    __real_setsockopt(fd, SOL_SOCKET, SO_LINGER, &lg, sizeof(lg));
+	}
+    }
     int r = __real_close(fd);
     int e = errno;
     ev("close", fd, f ? f->kind : 0, r, r < 0 ? e : 0);
